@@ -110,6 +110,16 @@ def build_overlay(pkgdir, tmp):
                         raise MachineryError("harness %s: unsupported param type %s" % (hn, ty))
                     i += 1
             regs.append('\t"%s": func(a []string) { %s(%s) },' % (hn, hn, ", ".join(conv)))
+    # native digest of the package's own package-level variables (confirms engine findings about
+    # state kept in globals, e.g. a cache that starts out empty)
+    pdir = os.path.join(REPO, pkgdir)
+    r = subprocess.run([GOSYM, "-listglobals", pdir], capture_output=True, text=True)
+    if r.returncode != 0:
+        raise MachineryError("listglobals %s: %s" % (pkgdir, r.stderr[-300:]))
+    gl = [g for g in r.stdout.split() if g]
+    open(os.path.join(out, "zz_verif_globals.go"), "w").write(
+        "package %s\n\n// verifGlobalsDigest: digest of every package-level variable of this package.\nfunc verifGlobalsDigest() string {\n\treturn verifDeepDigest(%s)\n}\n"
+        % (name, ", ".join("&" + g for g in gl)))
     reg = "package %s\n\nvar verifHarnesses = map[string]func(a []string){\n%s\n}\n" % (name, "\n".join(regs))
     open(os.path.join(out, "zz_verif_registry_test.go"), "w").write(reg)
     return out
@@ -348,10 +358,10 @@ def run_check(pid, tier):
     import checks
     spec = checks.PROPS[pid]
     jobs = [j for j in spec["jobs"] if j.tier == "quick" or tier == "thorough"]
-    if tier == "thorough":
-        # a thorough job with the same (pkg, harness, maporder) as a quick one supersedes it
-        sup = {(j.pkg, j.harness, j.maporder, j.note) for j in jobs if j.tier == "thorough"}
-        jobs = [j for j in jobs if j.tier == "thorough" or (j.pkg, j.harness, j.maporder, j.note) not in sup]
+    # (the thorough tier runs every quick job plus the thorough ones: its coverage is a superset)
+    only = os.environ.get("VERIF_ONLY")   # development aid: run the jobs matching a regex, write no evidence
+    if only:
+        jobs = [j for j in jobs if re.search(only, j.key())]
     seed = int(os.environ.get("VERIF_SEED", "0") or 0)
     t0 = time.time()
     tmp = tempfile.mkdtemp(prefix="vcheck_%s_" % pid)
@@ -555,7 +565,8 @@ def run_check(pid, tier):
               "assumptions": spec.get("assumptions", []) + checks.COMMON_ASSUMPTIONS,
               "wall_s": round(time.time() - t0, 2), "violations": nviol}
         os.makedirs(os.path.join(ROOT, "evidence"), exist_ok=True)
-        json.dump(ev, open(os.path.join(ROOT, "evidence", pid + ".json"), "w"), indent=1)
+        if not only:
+            json.dump(ev, open(os.path.join(ROOT, "evidence", pid + ".json"), "w"), indent=1)
         log("%s %s: paths=%d queries=%d validated=%d violations=%d known=%d wall=%.1fs exit=%d" % (
             pid, tier, cov["states"], cov["queries"], cov["traces_validated_against_impl"], nviol, len(known_hit), time.time() - t0, exit_code))
         return exit_code
